@@ -23,6 +23,8 @@ import (
 	"github.com/google/osv-scalibr/artifact/image/layerscanning/image"
 	"github.com/google/osv-scalibr/extractor"
 	"github.com/google/osv-scalibr/extractor/filesystem"
+	"github.com/google/osv-scalibr/extractor/standalone"
+	scalibrfs "github.com/google/osv-scalibr/fs"
 	"github.com/google/osv-scalibr/inventory"
 	"github.com/google/osv-scalibr/plugin"
 	"github.com/google/osv-scalibr/purl"
@@ -53,6 +55,7 @@ type pkgex struct {
 	cancelOn int
 	cancel   func()
 	sizes    *[]int // when set: the number of bytes every Extract call was handed
+	noPURL   bool   // ToPURL returns nil (extractors without a PURL for their packages, e.g. containerd's)
 }
 
 func (pkgex) Name() string                       { return "verif/pkgex" }
@@ -82,7 +85,10 @@ func (e pkgex) Extract(ctx context.Context, in *filesystem.ScanInput) (inventory
 	}
 	return inventory.Inventory{Packages: ps}, nil
 }
-func (pkgex) ToPURL(p *extractor.Package) *purl.PackageURL {
+func (e pkgex) ToPURL(p *extractor.Package) *purl.PackageURL {
+	if e.noPURL {
+		return nil
+	}
 	return &purl.PackageURL{Type: purl.TypeGeneric, Name: p.Name, Version: p.Version}
 }
 func (pkgex) Ecosystem(p *extractor.Package) string { return "" }
@@ -115,6 +121,25 @@ func hitByAncestorOp(l layer, f int) bool {
 	return false
 }
 
+// emitNoPURL: generate cases whose extractor returns a nil PURL. Off until the repair is in /repo: on the unrepaired
+// tree PopulateLayerDetails dereferences the nil PURL and ScanContainer panics (fix-c17-cov/2.diff).
+const emitNoPURL = false
+
+// saex: a standalone extractor that reports one package ("sa", with a location). It is not a filesystem extractor, so
+// the trace cannot attribute its package: LayerDetails stay unset.
+type saex struct{}
+
+func (saex) Name() string                       { return "verif/saex" }
+func (saex) Version() int                       { return 0 }
+func (saex) Requirements() *plugin.Capabilities { return &plugin.Capabilities{} }
+func (saex) Extract(ctx context.Context, in *standalone.ScanInput) (inventory.Inventory, error) {
+	return inventory.Inventory{Packages: []*extractor.Package{{Name: "sa", Version: "1", Locations: []string{"standalone"}}}}, nil
+}
+func (saex) ToPURL(p *extractor.Package) *purl.PackageURL {
+	return &purl.PackageURL{Type: purl.TypeGeneric, Name: p.Name, Version: p.Version}
+}
+func (saex) Ecosystem(p *extractor.Package) string { return "" }
+
 type layer struct {
 	empty bool
 	ops   []string // per file: k, d, w<digits>
@@ -122,6 +147,7 @@ type layer struct {
 
 type tcase struct {
 	mode   byte // H N S G
+	noPURL bool // mode token suffix p: the extractor has no PURL for its packages (identity = name and version)
 	nf     int
 	cancel int // 0 = never; k = the context is cancelled once the trace has made k re-extractions
 	layers []layer
@@ -140,7 +166,11 @@ func (c tcase) line() string {
 	if c.cancel > 0 {
 		cs = fmt.Sprintf("c%d", c.cancel)
 	}
-	return fmt.Sprintf("trace %c %d %s %s", c.mode, c.nf, cs, hx.Join(ls, ","))
+	m := string(c.mode)
+	if c.noPURL {
+		m += "p"
+	}
+	return fmt.Sprintf("trace %s %d %s %s", m, c.nf, cs, hx.Join(ls, ","))
 }
 
 func parseCase(s string) tcase {
@@ -152,7 +182,7 @@ func parseCase(s string) tcase {
 	if err != nil {
 		panic(err)
 	}
-	c := tcase{mode: t[1][0], nf: nf}
+	c := tcase{mode: t[1][0], nf: nf, noPURL: strings.HasSuffix(t[1], "p")}
 	if len(t) == 5 && t[3] != "-" {
 		c.cancel, err = strconv.Atoi(strings.TrimPrefix(t[3], "c"))
 		if err != nil || c.cancel < 1 {
@@ -283,7 +313,10 @@ func run(c tcase) string {
 			cancelOn = finalCalls + c.cancel
 		}
 		res, err := scalibr.New().ScanContainer(ctx, im, &scalibr.ScanConfig{
-			FilesystemExtractors: []filesystem.Extractor{pkgex{calls: &calls, cancelOn: cancelOn, cancel: cancel}}, Capabilities: &plugin.Capabilities{},
+			FilesystemExtractors: []filesystem.Extractor{pkgex{calls: &calls, cancelOn: cancelOn, cancel: cancel, noPURL: c.noPURL}}, Capabilities: &plugin.Capabilities{},
+			StandaloneExtractors: []standalone.Extractor{saex{}},
+			// scan roots given by the caller are replaced by the image's final view
+			ScanRoots:    []*scalibrfs.ScanRoot{{Path: "/nonexistent/verif"}},
 			ReadSymlinks: true})
 		if err != nil {
 			return "scanerr"
@@ -295,6 +328,14 @@ func run(c tcase) string {
 				if len(p.Locations) > 0 && p.Locations[0] == files[i] {
 					f = i
 				}
+			}
+			if p.Name == "sa" { // the standalone extractor's package: not traceable
+				if p.LayerDetails == nil {
+					toks = append(toks, "sa@nil")
+				} else {
+					toks = append(toks, fmt.Sprintf("sa@%d", p.LayerDetails.Index))
+				}
+				continue
 			}
 			name := pkgID(p.Name, p.Version)
 			if p.LayerDetails == nil {
@@ -374,6 +415,9 @@ func randCase(r *rand.Rand) tcase {
 		c.nf = 3
 	case 3:
 		c.nf = 1
+	}
+	if emitNoPURL && r.Intn(8) == 0 {
+		c.noPURL = true
 	}
 	linky := r.Intn(4) == 0 // a quarter of the cases replace locations by symlinks now and then
 	deep := r.Intn(3) == 0  // a third delete / replace ancestor directories now and then
